@@ -149,6 +149,10 @@ def run(c):
     # the code as it was: the plain blocking send wedges (documentation of finding F5; must be a violation of the model)
     r = vlib.tlc('Topic', 'Topic_asis.cfg', workers=1, timeout=300)
     c.extra['asis_model_wedges'] = (r.violation == 'CloseNeverWedges')
+    # Sync returning by itself (run-once) with the caller's context still open: nothing it started stays behind
+    res = vlib.run_harness(['onlyonce'], timeout=900)
+    res['mismatches'] = [m for m in res['mismatches'] if (m.get('sig') or {}).get('prop') == 'C17']
+    vlib.absorb(c, res)
     for cmd in ('climit', 'globalstorage', 'cancel-leak'):
         res = vlib.run_harness([cmd], timeout=900)
         vlib.absorb(c, res)
